@@ -297,6 +297,10 @@ def gen_zero_rtt(r, idx, prefix=None):
     if r.random() < 0.3:
         cli["ops"].append({"op": "sleep", "us": r.choice([10, 5000])})
     cli["ops"].append({"op": "connect", "zero_rtt": True})
+    # streams opened again after a rejection, while the early handles are still around
+    late = (not cfg["early_accept"]) and r.random() < 0.6
+    if late:
+        cfg["stream_window"] = r.choice([300, 300, 1000])      # the new streams' writers block
     for _ in range(r.choice([1, 2, 3, 4])):
         bidi = r.random() < 0.6
         ops = [{"op": "open_bi" if bidi else "open_uni"}]
@@ -315,8 +319,19 @@ def gen_zero_rtt(r, idx, prefix=None):
         if r.random() < 0.2:
             ops[-1]["cancel"] = cancel_plan(r)
             ops[-1]["retry"] = ops[-1]["op"] in CANCEL_SAFE
+        if late:
+            # the task keeps its (by then stale) early handles for a while: they are dropped when streams
+            # opened after the rejection - which start numbering again - are in use
+            ops.append({"op": "sleep", "us": r.choice([2000, 20000, 100000, 400000])})
         tasks.append({"ep": -1, "ops": ops, "with_ep": False})
         cli["ops"].append({"op": "spawn", "t": len(tasks) - 1})
+        if late:
+            lops = [{"op": "sleep", "us": r.choice([3000, 10000, 50000])}, {"op": "open_bi" if bidi else "open_uni"}]
+            for _ in range(r.choice([2, 3])):
+                lops += [{"op": "write_all", "n": r.choice([100, 700])}, {"op": "sleep", "us": r.choice([5000, 60000, 200000])}]
+            lops.append({"op": "finish"})
+            tasks.append({"ep": -1, "ops": lops, "with_ep": False})
+            cli["ops"].append({"op": "spawn", "t": len(tasks) - 1})
         # the server's counterpart (only ever sees the stream when early data is accepted or never at all)
         sops = [{"op": "accept_bi" if bidi else "accept_uni"},
                 {"op": "read_all", "kind": r.choice(["read", "read_chunk"]), "n": 1500, "max_rounds": 60}]
@@ -351,7 +366,7 @@ def gen_script(r, idx, prefix=None):
     fam = r.random()
     if fam < 0.05:
         return gen_close_race(r, idx, prefix)
-    if fam < 0.11:
+    if fam < 0.15:
         return gen_zero_rtt(r, idx, prefix)
     if fam < 0.20:
         return gen_limit_chain(r, idx, prefix)
